@@ -254,8 +254,17 @@ def run_hypothesis(ctx, prop, strategies, max_examples, salt=0, shrink=True, exc
             if not exclude_buckets:
                 return
             suppressed.add(v.bucket)
-        except hypothesis.errors.Flaky as e:  # a non-deterministic oracle is a harness bug
-            raise HarnessError('flaky property: %s' % e) from e
+        except hypothesis.errors.Flaky as e:
+            # The same generated input failed once and passed when Hypothesis replayed it. The harness is a pure function of
+            # (code, seed), so this means the code under test keeps state between calls (a cache, a module-level table): the
+            # recorded failure was a real observation and is reported; its replay file may need the preceding history.
+            v = last.get('v')
+            if v is None:
+                raise HarnessError('flaky property: %s' % e) from e
+            v.detail = dict(v.detail, history_dependent='the failure depends on earlier calls in the same process (did not reproduce on immediate replay)')
+            v.what = '[history-dependent] ' + v.what
+            ctx.violation(v)
+            return
 
 
 def rnd_strategy():
